@@ -38,7 +38,7 @@ TRUSTED = [
     "os.path.splitext modelled by posixpath.splitext; mimetypes.guess_type modelled as an arbitrary function returning (mime|None, None)",
     "the abstract evaluator in sa/engine/absinterp.py (refuses constructs outside its subset)",
 ]
-FLOORS = {"C07-TABLES": 100, "C07-SHAPE": 2000, "C07-DOC": 50, "C07-USE": 4}
+FLOORS = {"C07-TABLES": 100, "C07-SHAPE": 2000, "C07-DOC": 50, "C07-USE": 4, "C07-ATT": 4}
 
 # README section -> registry targets that section may reach (function names)
 DOC_SECTIONS = {
@@ -453,4 +453,17 @@ def _is_routed_value(ctx: Ctx, fi, name: str) -> bool:
     return False
 
 
-RULES = [rule_tables, rule_shape, rule_doc, rule_use]
+def rule_att(ctx: Ctx) -> RuleReport:
+    """Attachment dispatch is the router's decision for the attachment's name (the MIME table only when the name decides nothing).
+    The structural check is the one C16-ROUTE performs; here it is an obligation of C07's 'dispatch goes to the extractor get_extractor selects'."""
+    from . import c16
+
+    src = c16.rule_route(ctx)
+    rep = RuleReport("C07-ATT", "attachment dispatch asks get_extractor(<attachment name>) first; the MIME table is consulted only when the router refuses the name")
+    rep.obligations, rep.discharged, rep.residual, rep.info, rep.samples, rep.units = src.obligations, src.discharged, src.residual, src.info, src.samples, src.units
+    for f in src.findings:
+        rep.findings.append(Finding("C07-ATT", f.file, f.function, f.construct, f.message, line=f.line))
+    return rep
+
+
+RULES = [rule_tables, rule_shape, rule_doc, rule_use, rule_att]
